@@ -5,8 +5,9 @@
   are about the glue in schema.go as modelled in CdiModel/SchemaGlue.lean.
 -/
 import CdiModel.SchemaGlue
+import CdiProofs.Lemmas.SchemaGeneral
 namespace Cdi.SchemaGlue
-open Cdi
+open Cdi Cdi.Schema
 
 /-- F8: the only keyword draft-07 ignores in the shipped files is the misspelt "ref" -/
 theorem F8_ignored_keywords : Generated.schemaIgnoredKeywords = ["ref"] := by decide
@@ -48,5 +49,32 @@ theorem pinned_glue_encoding_dependent (doc : JVal) (h1 : engine .builtin doc = 
   simp [verdictWith, runsContents, h1, h2]
 
 example : contentsOK badKeyDoc = false := by decide
+
+/-! ### What draft-07 makes of an object schema - for any schema term, hence for the regenerated one -/
+
+/-- an object schema accepts objects only and insists on its required members (`missing_required_rejected`,
+`wrong_type_rejected` of the design, at the level where they apply to every schema) -/
+theorem C17_object_schema_required (s : Schema) (doc : JVal) (ht : stype s = some "object")
+    (h : validates s doc = true) :
+    ∃ m, doc = .obj m ∧ ∀ r ∈ srequired s, (memberLast m (lit r)).isSome = true :=
+  validates_object_required s doc ht h
+
+/-- a member that an object schema does not mention (no property of that name, not required, no pattern
+properties at that level) has no influence on the verdict -/
+theorem C17_unmentioned_member_irrelevant (s : Schema) (k : Str) (v : JVal) (m : JMembers)
+    (hp : ∀ n ∈ propNames (sprops s), lit n ≠ k) (hr : ∀ n ∈ srequired s, lit n ≠ k) (hpp : spattern s = .nil) :
+    validates s (.obj (.cons k v m)) = validates s (.obj m) :=
+  validates_ignores_unmentioned s k v m hp hr hpp
+
+/-- **C17 (what the shipped files require of every document)**: the builtin schema - the term regenerated from
+schema.json/defs.json - accepts only objects that have `cdiVersion`, `kind` and `devices` members. -/
+theorem C17_builtin_requires_core (doc : JVal) (h : validates Generated.builtinSchema doc = true) :
+    ∃ m, doc = .obj m ∧ (memberLast m (lit "cdiVersion")).isSome = true ∧
+      (memberLast m (lit "kind")).isSome = true ∧ (memberLast m (lit "devices")).isSome = true := by
+  have ht : stype Generated.builtinSchema = some "object" := by decide
+  have hr : ∀ r ∈ ["cdiVersion", "kind", "devices"], r ∈ srequired Generated.builtinSchema := by decide
+  obtain ⟨m, hm, hall⟩ := validates_object_required _ doc ht h
+  exact ⟨m, hm, hall _ (hr _ (by simp)), hall _ (hr _ (by simp)), hall _ (hr _ (by simp))⟩
+
 
 end Cdi.SchemaGlue
